@@ -220,3 +220,8 @@ Proof.
   split; [split; [apply nodup_N; vm_compute; reflexivity|split; [apply closed_n; vm_compute; reflexivity|apply nodup_NN; vm_compute; reflexivity]]|].
   split; [intros x y _ _; apply fx_inj|vm_compute; discriminate].
 Qed.
+
+(** C18_mappings: the two mappings of the example (identity and the swap) *)
+Example ex_mappings : length (maps_from_perms leaf_a [leaf_a; leaf_b]) = 2 /\
+  existsb (fun kv => N.eqb (fst kv) 0 && N.eqb (snd kv) 1) (nth 1 (maps_from_perms leaf_a [leaf_a; leaf_b]) []) = true.
+Proof. vm_compute. split; reflexivity. Qed.
